@@ -369,6 +369,24 @@ def build(draw):
                        {"op": "parse_tracts", "config": None, "kw": dict(tl)}]
             for d in ("D", "D2", "D3", "D4"):
                 pairs.append(("A", d, "final"))
+            # ONE tract of several with the same description gets the
+            # setting (its twins do not): parse_tracts() must honour each
+            # tract's own configuration
+            blk = corpus.TRACT_WITNESS.get(sorted(tl)[0])
+            if blk:
+                multi = {"op": "create", "cls": "PLSSDesc",
+                         "text": "T154N-R97W Sec 14 - 16: " + blk,
+                         "config": None, "kw": {"parse_qq": True}}
+                H["mZ"] = [multi]
+                H["mA"] = [dict(multi, config=txt(tl, sep))]
+                for j_, nm in ((0, "mT0"), (1, "mT1")):
+                    H[nm] = [multi,
+                             {"op": "tract_set_config", "i": j_,
+                              "config": txt(tl, sep)},
+                             {"op": "parse_tracts", "config": None, "kw": {}}]
+                pairs += [("mA", "mT0", "tract0"), ("mZ", "mT0", "tract1"),
+                          ("mA", "mT1", "tract1"), ("mZ", "mT1", "tract0"),
+                          ("mZ", "mT1", "tract2")]
     elif fam == "channels" and cls == "Tract":
         s_text = txt(sigma, sep)
         H["Z"] = [tract(None, parse_qq=True)]
@@ -865,6 +883,9 @@ def run_history(ops):
             elif kind == "config_tracts":
                 subj.config_tracts(op["config"])
                 out = {"ok": None}
+            elif kind == "tract_set_config":
+                subj.tracts[op["i"]].config = op["config"]
+                out = {"ok": None}
             elif kind == "preprocess":
                 if not _kw_ok(subj.preprocess, op["kw"]):
                     unavailable = True
@@ -936,6 +957,11 @@ def _project(res, what):
         return f
     if what == "tracts":
         return f.get("tracts") if isinstance(f, dict) else f
+    if what in ("tract0", "tract1", "tract2"):
+        try:
+            return f["tracts"]["__TL"][int(what[-1])]
+        except Exception:  # noqa
+            return {"__missing": what}
     if what == "obs":
         # only what the subordinate Tracts do later, in set_twprgesec
         return {"__obs_inherited": f.get("__obs_inherited")} \
